@@ -373,6 +373,10 @@ pub fn run_profile<S: USet>(e: &mut Eng<S>, profile: &str, hists: usize, steps: 
             crate::scenarios::fail_injection(e, hists, steps);
             return;
         }
+        "prims" => {
+            crate::scenarios::prims(e, hists > 1);
+            return;
+        }
         _ => {}
     }
     crate::scenarios::fixed(e, profile);
